@@ -26,7 +26,7 @@ checks = {
  "C13": dict(engine="E1", ref="6/C13", technique=E1TECH,
    text="Try bodies built from every sequence of <=3 (thorough 4) nested frames over 10 frame kinds x failure (none / innermost point / after the innermost frame / end; identifier, error panic, string panic) x 4 catch forms x 4 placements (incl. a block whose content fails once while shown inside the try) x data present / nil; afterwards the program probes context, variables, catch variable and {{yield content}}; compared byte for byte with the transactional reference.", note=E1NOTE),
  "C15": dict(engine="E1", ref="6/C15", technique="exhaustive enumeration of name spellings x entry points, replayed on the real Set against a path.Clean reference resolver (recording Loader/Cache)",
-   text="Every name spelling of <=4 segments over {a,b,.,..,empty} x relative/absolute x trailing slash, at 9 entry points, from referrers at depth 0-2, under 3 extension lists, with development mode off and on, is run on the real Set with a recording Loader and Cache; the exact request trace must equal the reference resolution. Exhaustive inside that alphabet, nothing outside it.",
+   text="Every name spelling of <=4 segments over {a,b,.,..,empty} x relative/absolute x trailing slash, at 9 entry points, from referrers at depth 0-2, under 3 extension lists, with development mode off and on, is run on the real Set with a recording Loader and Cache; every path handed to either must be absolute and clean, must be the reference resolution of the name (plus a configured extension), and the file opened must be the resolution's. Exhaustive inside that alphabet, nothing outside it.",
    note="trusts path.Join/path.Clean as the definition of 'lexically clean'; backslash spellings excluded (platform dependent)"),
 }
 E2NOTE = "trusts the reference state machine written next to the check; successors are built by replaying the shortest path on a fresh real object plus one operation, so every transition is one conformance check"
